@@ -1,7 +1,7 @@
 (* Proofs about Model/HashText.v: the hashed text determines the definition (on well-formed
    definitions, one recorded shape apart), and the four literals denote first32(sha256 raw). *)
 From Coq Require Import ZArith NArith List Bool String Ascii Lia DecimalString DecimalZ DecimalPos Decimal.
-From Defs Require Import Lib.Sha256 Model.HashText.
+From Defs Require Import Gen.Guards Lib.Sha256 Model.HashText.
 Import ListNotations.
 Open Scope string_scope. Open Scope list_scope.
 
@@ -16,7 +16,12 @@ Fixpoint all_chars (p : ascii -> bool) (s : string) : bool :=
 Definition identb (s : string) : bool := nonempty s && all_chars ident_char s.
 Definition not_nl (c : ascii) : bool := negb (Ascii.eqb c nlc).
 Definition no_nl (s : string) : bool := all_chars not_nl s.
-Definition wf_field (f : string * string) : bool := identb (fst f) && no_nl (snd f).
+Fixpoint str_mem (x : string) (l : list string) : bool :=
+  match l with [] => false | y :: r => String.eqb x y || str_mem x r end.
+(* a field: its name is an identifier that add_fields does not reserve (Gen/Guards.v, regenerated), its
+   type text has no newline *)
+Definition wf_field (f : string * string) : bool :=
+  identb (fst f) && negb (str_mem (fst f) reserved_field_names) && no_nl (snd f).
 Definition wf_fspec (f : fspec) : bool :=
   match f with FDict fs => forallb wf_field fs | FReuse t => identb t end.
 (* names are identifiers, type texts contain no newline *)
@@ -25,7 +30,8 @@ Definition wf (d : defn) : bool :=
   | DSignal n _ => identb n
   | DMessage n _ f | DStruct n f => identb n && wf_fspec f
   end.
-(* the one shape that reads like `fields: OTHER`: a message whose only field is called `fields` *)
+(* the one shape that reads like `fields: OTHER`: a message whose only field is called `fields`;
+   add_fields reserves that field name, so no well-formed definition has it (wf_not_lookalike) *)
 Definition lookalike (d : defn) : bool :=
   match d with DMessage _ _ (FDict [(fn, _)]) => String.eqb fn "fields" | _ => false end.
 
@@ -203,7 +209,7 @@ Lemma id_line_no_nl i : no_nl ("  id: " +++ dec i) = true.
 Proof. unfold no_nl. rewrite all_chars_app. fold (no_nl (dec i)). rewrite dec_no_nl. reflexivity. Qed.
 Lemma field_line_no_nl f : wf_field f = true -> no_nl (field_line f) = true.
 Proof.
-  unfold wf_field, field_line. rewrite andb_true_iff. intros [A B]. unfold no_nl.
+  unfold wf_field, field_line. rewrite !andb_true_iff. intros [[A _] B]. unfold no_nl.
   rewrite !all_chars_app. fold (no_nl (fst f)) (no_nl (snd f)). rewrite (ident_no_nl _ A), B. reflexivity.
 Qed.
 Lemma flines_no_nl fs : forallb wf_field fs = true -> Forall (fun l => no_nl l = true) (flines fs).
@@ -245,7 +251,7 @@ Qed.
 
 Lemma blank_field_line f : wf_field f = true -> blank_ws (field_line f) = field_line f.
 Proof.
-  unfold wf_field. rewrite andb_true_iff. intros [A _]. destruct (ident_head _ A) as (c & r & E & W).
+  unfold wf_field. rewrite !andb_true_iff. intros [[A _] _]. destruct (ident_head _ A) as (c & r & E & W).
   apply (blank_keep _ c); [|exact W]. unfold field_line. rewrite E. simpl. right. right. right. right. left. reflexivity.
 Qed.
 Lemma blank_flines fs : forallb wf_field fs = true -> map blank_ws (flines fs) = flines fs.
@@ -309,7 +315,7 @@ Proof. intros A B H. exact (proj1 (cut_at ":" a b "" "" (ident_no_colon a A) (id
 
 Lemma field_line_inj f g : wf_field f = true -> wf_field g = true -> field_line f = field_line g -> f = g.
 Proof.
-  unfold wf_field, field_line. rewrite !andb_true_iff. intros [A _] [B _] H.
+  unfold wf_field, field_line. rewrite !andb_true_iff. intros [[A _] _] [[B _] _] H.
   apply (app_inj_l "    ") in H. change (": " +++ snd f) with (String ":" (" " +++ snd f)) in H.
   change (": " +++ snd g) with (String ":" (" " +++ snd g)) in H.
   destruct (cut_at ":" _ _ _ _ (ident_no_colon _ A) (ident_no_colon _ B) H) as [E1 E2].
@@ -348,7 +354,7 @@ Proof. intros H. apply (app_inj_l "  id: ") in H. exact (dec_inj i j H). Qed.
 (* a single field line equal to the `fields: OTHER` line: the field is called `fields` *)
 Lemma field_line_is_reuse f t : wf_field f = true -> field_line f = "    fields: " +++ t -> fst f = "fields".
 Proof.
-  unfold wf_field, field_line. rewrite andb_true_iff. intros [A _] H.
+  unfold wf_field, field_line. rewrite !andb_true_iff. intros [[A _] _] H.
   apply (app_inj_l "    ") in H. change (": " +++ snd f) with (String ":" (" " +++ snd f)) in H.
   change ("fields: " +++ t) with ("fields" +++ String ":" (" " +++ t)) in H.
   exact (proj1 (cut_at ":" (fst f) "fields" (" " +++ snd f) (" " +++ t) (ident_no_colon _ A) eq_refl H)).
@@ -417,6 +423,19 @@ Proof.
   apply (canon_inj d1 d2 W1 W2 L1 L2).
   exact (join_inj _ _ (canon_nonnil d1) (canon_nonnil d2) (canon_no_nl d1 W1) (canon_no_nl d2 W2) H).
 Qed.
+
+(* a well-formed definition has no field called `fields` (reserved by add_fields) *)
+Lemma wf_not_lookalike d : wf d = true -> lookalike d = false.
+Proof.
+  destruct d as [n i|n i [fs|t]|n [fs|t]]; try reflexivity. destruct fs as [|[fn ty] [|g r]]; try reflexivity.
+  unfold wf, wf_fspec, lookalike. cbn [forallb]. unfold wf_field. cbn [fst snd].
+  rewrite !andb_true_iff. intros (_ & ((_ & R) & _) & _).
+  destruct (String.eqb fn "fields") eqn:E; [|reflexivity]. apply String.eqb_eq in E. subst fn.
+  vm_compute in R. discriminate R.
+Qed.
+
+Theorem raw_inj_wf d1 d2 : wf d1 = true -> wf d2 = true -> raw d1 = raw d2 -> d1 = d2.
+Proof. intros W1 W2. exact (raw_inj d1 d2 W1 W2 (wf_not_lookalike d1 W1) (wf_not_lookalike d2 W2)). Qed.
 
 (* ---- hexadecimal literals ------------------------------------------------------------------------- *)
 Open Scope N_scope.
